@@ -729,9 +729,16 @@ def run_eqtext(chk, F, rid="R-EQTEXT"):
         # first repair, found by a round-7 agent: `constant.equal(list of a query)` asked the childless LIST type whether
         # it is an integer and crashed in type_t::is)
         for site, conds in sites_with_conditions(eqx["body"], lambda x: side(x) == "other"):
-            agreed = any((not t) and isinstance(c, dict) and c.get("k") != "caseof" and "kind" in short(c) and "!=" in short(c)
-                         for c, t in conds) or \
-                any(t and isinstance(c, dict) and c.get("k") != "caseof" and "kind" in short(c) and "==" in short(c) for c, t in conds)
+            def both_kinds(c, op):
+                """a comparison `<this node's kind> op <the other node's kind>` somewhere in c"""
+                for x in walk(c):
+                    if x.get("k") == "bin" and x.get("op") == op and "kind" in short(x["lhs"]) and "kind" in short(x["rhs"]):
+                        return True
+                    if x.get("k") == "call" and x.get("ck") == "op" and x.get("op") == op and short(x).count("kind") >= 2:
+                        return True
+                return False
+            agreed = any((not t) and isinstance(c, dict) and c.get("k") != "caseof" and both_kinds(c, "!=") for c, t in conds) or \
+                any(t and isinstance(c, dict) and c.get("k") != "caseof" and both_kinds(c, "==") for c, t in conds)
             chk.ob(rid, "equal|type read after kinds agree", agreed,
                    "expression_t::equal reads the type of the other node (line %s) before it has established that the two "
                    "nodes have the same kind: the type of a node of another kind (the primitive LIST type of a query list) "
